@@ -947,6 +947,9 @@ def body(ck: common.Check):
         ck.count("key:class=" + c["class"])
         ck.count("key:entry=" + c["entry"])
         ck.count("key:exists=%s" % c["exists"])
+        nat = c["input"].get("native")
+        ck.count("key:value=" + ("text" if "text" in c["input"] else "texts" if nat is None else
+                                 ("ndarray size=%d ndim=%d" % (len(nat[3]), len(nat[2])) if nat[0] == "nd" else nat[0])))
         ck.count("key:set=" + ("ok" if "ok" in im["set"] else im["set"]["err"]))
         why = key_predicate(c, im)
         if why is not None:
@@ -989,7 +992,10 @@ def body(ck: common.Check):
                "and tuples nested to depth 3) and bare words; key: random pipelines (1-4 groups, absent groups, 1-3 models, "
                "0-3 arguments) x 4 detector types, keys = every settable detector field / argument / enabled flag and their "
                "misspelt-leaf, misspelt-inner, truncated, over-long, absent-group, unknown-model and read-only variants, through "
-               "Processor.set, apply_overrides, Processor.replace and update_processor, values as text / native / sequences; "
+               "Processor.set, apply_overrides, Processor.replace and update_processor (scalar '_' and vector ['_', …] variables), values "
+               "as text / native numbers and numpy scalars / sequences incl. one-element lists and tuples / numpy arrays of size "
+               "0, 1, 2, many and shapes (0,), (1,), (1,1), (1,1,1), (2,), 0-d, (2,3); read-back compared as (type, dtype, shape, "
+               "exact values); "
                "validate: sweep steps over declared / undeclared / disabled / unknown keys and enabled flags, product and "
                "sequential mode, half of them also run end to end; non-trivial = every key / validate case, eval cases other "
                "than None/True/False; distinct by canonical JSON")
@@ -998,6 +1004,8 @@ def body(ck: common.Check):
         "(an unset validated field counts as existing); names that exist but are objects or read-only properties are outside "
         "the statement's 'setting' (only 'a refused assignment changes nothing' is checked for them)",
         "values assigned to validated detector fields are taken inside their documented range (the ranges are C12)",
+        "a sequence (list / tuple) assigned natively is read back as a list (Processor.set converts element-wise); numpy "
+        "arrays and numpy scalars must be read back with the same type, dtype and shape",
         "APD avalanche_gain / pixel_reset_voltage / common_voltage are coupled by design and are not used as keys",
         "dictionary entries and list indices inside a key are not modelled and not generated",
         "literal grammar: see the restriction in Model/C08.lean (no complex, hex, '_' separators, escapes, sets, dicts, "
